@@ -100,3 +100,35 @@ prop("C11",
      unverified_surroundings=[
          "pytato.target.loopy.codegen (CodeGenMapper, InlinedExpressionGenMapper, "
          "domain_for_shape) and loopy itself"])
+
+prop("C04",
+     level="proof",
+     level_text=(
+         "Deductive proof per node kind, for all field values: the hand-"
+         "written equality method returns True only if EVERY dataclass field "
+         "(taken by reflection from the running classes) is related and "
+         "False only if some field differs; the generated hash reads only "
+         "equality-related fields; pickling state is the field list; the "
+         "dispatcher/memo of EqualityComparer.rec obeys its contract."),
+     level_note=(
+         "Fields hold opaque symbolic values (== is a z3 atom), children are "
+         "opaque arrays related by an uninterpreted congruence R; tuple/dict "
+         "fields are enumerated in length/key-set (0..3 entries). Reflexivity/"
+         "symmetry/transitivity and 'rebuilt copy equals original' follow "
+         "from the iff-characterisation by the induction of DESIGN Appendix "
+         "A.3 (argued, not machine-checked). CPython pickle transport and "
+         "content-hashing of tuple/frozenset/constantdict are trusted."),
+     technique="contract-based deductive verification: symbolic execution of "
+               "the real equality/hash source over a reflective data model, "
+               "VCs discharged by z3",
+     design_ref="DESIGN.md §6 C04",
+     explanation="see contracts/c04_equality.py docstring",
+     structural_bound="tuple/mapping fields with 0..3 entries, equal and "
+                      "unequal lengths, differing key sets, differing entry "
+                      "kinds",
+     trusted_base=["hash of tuple/frozenset/constantdict is content-based",
+                   "dataclasses.fields reflects the data model"],
+     assumptions=["R (child equality) is a congruence for tags/axes/shape/"
+                  "dtype (induction hypothesis)"],
+     unverified_surroundings=["CPython pickle", "pymbolic expression "
+                              "equality (expr field)"])
